@@ -721,7 +721,10 @@ pub fn main() {
             file_list,
             names,
         } => {
-            let input_files = get_input_list(file_list, names);
+            let input_files = match file_list {
+                Some(list_file) => read_name_list(list_file),
+                None => get_input_list(file_list, names),
+            };
             let input_names: Vec<&str> = input_files.iter().map(|t| &*t.0).collect();
             let output_file = output.clone().unwrap_or(skf_file.to_string());
             log::info!("Loading skf file");
